@@ -237,7 +237,9 @@ enum Ev {
     Fired { id: u32 },
     /// the registering call returned (a `Fired` before this marker is an inline invocation)
     RegDone { id: u32 },
-    Drop { pending: usize, in_batch: bool },
+    /// the last sender was dropped; `from` says by whom: the driver between polls ("tick"), a
+    /// callback invoked by the receiver, or a hook point inside the receiver's loop
+    Drop { pending: usize, in_batch: bool, from: &'static str },
     Done,
 }
 
@@ -287,8 +289,119 @@ impl Future for Scripted {
 // the sender side of a case
 // ---------------------------------------------------------------------------
 
+type Slot = Arc<Mutex<Option<Sender<Chan>>>>;
+
+/// Ids of the items sent by a "final action" (send + drop the last sender from inside the
+/// receiver's window).
+const FINAL_ITEM_BASE: u64 = 1_000_000;
+
+/// Send `n` final items and drop the last sender. Runs inside the receiver's poll: in a callback
+/// the receiver invokes, or at one of the hook points of its loop.
+fn final_action(log: &SharedLog, sender: Sender<Chan>, n: u64, from: &'static str) {
+    let ids: Vec<u64> = (0..n).map(|k| FINAL_ITEM_BASE + k).collect();
+    if !ids.is_empty() {
+        push(
+            log,
+            Ev::Sent {
+                ids: ids.clone(),
+                in_batch_fn: false,
+            },
+        );
+    }
+    for id in ids {
+        sender.send(id);
+    }
+    let snap = sender.verif_snapshot();
+    push(
+        log,
+        Ev::Drop {
+            pending: snap.pending_len,
+            in_batch: snap.is_in_batch,
+            from,
+        },
+    );
+    drop(sender);
+}
+
+#[derive(Clone, Copy, Debug, PartialEq, Eq)]
+enum FinalPlan {
+    None,
+    /// every flush (true) / empty (false) callback from the k-th registered on carries the final
+    /// action; the first one the *receiver* invokes performs it
+    Callback { flush: bool, from_kth: u32, items: u64 },
+    /// at the n-th occurrence of a receiver-side hook point
+    Hook { point: emit_batcher::verif::Point, nth: u32, items: u64 },
+}
+
+fn point_name(p: emit_batcher::verif::Point) -> &'static str {
+    use emit_batcher::verif::Point::*;
+    match p {
+        RecvSwapLock => "hook:RecvSwapLock",
+        RecvTaken => "hook:RecvTaken",
+        RecvBeforeBatch => "hook:RecvBeforeBatch",
+        RecvAfterBatch => "hook:RecvAfterBatch",
+        RecvBeforeRetryWait => "hook:RecvBeforeRetryWait",
+        RecvBeforeNotifyFlush => "hook:RecvBeforeNotifyFlush",
+        RecvBeforeIdleWait => "hook:RecvBeforeIdleWait",
+        _ => "hook:sender-side",
+    }
+}
+
+const RECV_POINTS: [emit_batcher::verif::Point; 6] = {
+    use emit_batcher::verif::Point::*;
+    [RecvSwapLock, RecvTaken, RecvBeforeBatch, RecvBeforeRetryWait, RecvBeforeNotifyFlush, RecvBeforeIdleWait]
+};
+
+struct HookPlan {
+    point: emit_batcher::verif::Point,
+    countdown: u32,
+    items: u64,
+    slot: Slot,
+    log: SharedLog,
+}
+
+thread_local! {
+    static HOOK_PLAN: std::cell::RefCell<Option<HookPlan>> = const { std::cell::RefCell::new(None) };
+    static HOOK_BUSY: std::cell::Cell<bool> = const { std::cell::Cell::new(false) };
+}
+
+/// Installed with `emit_batcher::verif::set_hook`: process-global, but it only acts on the thread
+/// whose vt case armed a plan.
+fn vt_hook(p: emit_batcher::verif::Point) {
+    if HOOK_BUSY.with(|b| b.get()) {
+        return;
+    }
+    let fire = HOOK_PLAN.with(|hp| {
+        let mut hp = hp.borrow_mut();
+        match hp.as_mut() {
+            Some(plan) if plan.point == p => {
+                if plan.countdown == 0 {
+                    hp.take()
+                } else {
+                    plan.countdown -= 1;
+                    None
+                }
+            }
+            _ => None,
+        }
+    });
+    if let Some(plan) = fire {
+        let sender = plan.slot.lock().unwrap().take();
+        if let Some(sender) = sender {
+            HOOK_BUSY.with(|b| b.set(true));
+            final_action(&plan.log, sender, plan.items, point_name(plan.point));
+            HOOK_BUSY.with(|b| b.set(false));
+        }
+    }
+}
+
 struct SenderSide {
-    sender: Option<Sender<Chan>>,
+    /// the last sender; taken out while the driver operates on it (so a callback invoked inline
+    /// by a registering call finds nothing) and by whoever performs the final action
+    slot: Slot,
+    plan: FinalPlan,
+    n_flush_cb: u32,
+    n_empty_cb: u32,
     g: Rng,
     next_item: u64,
     next_cb: u32,
@@ -306,8 +419,23 @@ impl SenderSide {
         self.next_cb += 1;
         let panics = self.g.chance(1, 4);
         let log = self.log.clone();
+        let kth = if flush { &mut self.n_flush_cb } else { &mut self.n_empty_cb };
+        let k = *kth;
+        *kth += 1;
+        let final_items = match self.plan {
+            FinalPlan::Callback { flush: f, from_kth, items } if f == flush && k >= from_kth => Some(items),
+            _ => None,
+        };
+        let slot = self.slot.clone();
         (id, panics, move || {
             push(&log, Ev::Fired { id });
+            if let Some(items) = final_items {
+                // only when the receiver invokes it: then the slot holds the sender
+                let sender = slot.lock().unwrap().take();
+                if let Some(sender) = sender {
+                    final_action(&log, sender, items, if flush { "flush-callback" } else { "empty-callback" });
+                }
+            }
             if panics {
                 injected(&log, if flush { "flush-callback" } else { "empty-callback" });
                 panic!("scripted panic inside a callback");
@@ -317,9 +445,10 @@ impl SenderSide {
 
     /// Perform 0..=2 sender operations. Returns false once the sender is gone.
     fn act(&mut self, in_batch_fn: bool) -> bool {
-        if self.sender.is_none() {
-            return false;
-        }
+        let sender = match self.slot.lock().unwrap().take() {
+            Some(s) => s,
+            None => return false,
+        };
         let n_ops = match self.g.below(4) {
             0 | 1 => 0,
             2 => 1,
@@ -342,7 +471,7 @@ impl SenderSide {
                             in_batch_fn,
                         },
                     );
-                    let s = self.sender.as_ref().unwrap();
+                    let s = &sender;
                     for id in ids {
                         s.send(id);
                     }
@@ -358,7 +487,7 @@ impl SenderSide {
                             in_batch_fn,
                         },
                     );
-                    let s = self.sender.as_ref().unwrap();
+                    let s = &sender;
                     if catch(|| s.when_flushed(f)).is_err() {
                         self.inline_panics += 1;
                     }
@@ -375,7 +504,7 @@ impl SenderSide {
                             in_batch_fn,
                         },
                     );
-                    let s = self.sender.as_ref().unwrap();
+                    let s = &sender;
                     if catch(|| s.when_empty(f)).is_err() {
                         self.inline_panics += 1;
                     }
@@ -385,13 +514,14 @@ impl SenderSide {
         }
         if self.ops_left == 0 && !in_batch_fn {
             if self.drop_delay == 0 {
-                let s = self.sender.take().unwrap();
+                let s = sender;
                 let snap = s.verif_snapshot();
                 push(
                     &self.log,
                     Ev::Drop {
                         pending: snap.pending_len,
                         in_batch: snap.is_in_batch,
+                        from: "tick",
                     },
                 );
                 drop(s);
@@ -399,6 +529,7 @@ impl SenderSide {
             }
             self.drop_delay -= 1;
         }
+        *self.slot.lock().unwrap() = Some(sender);
         true
     }
 }
@@ -423,8 +554,31 @@ fn run_vt(seed: u64, idx: u64, small: bool) -> CaseRun {
     let log: SharedLog = Arc::new(Mutex::new(Log::default()));
     let (sender, receiver) = bounded::<Chan>(1 << 20);
 
+    let slot: Slot = Arc::new(Mutex::new(Some(sender)));
+    // a third of the cases end with "send + drop the last sender" from inside the receiver's window
+    let plan = match g.below(9) {
+        0 => FinalPlan::Callback { flush: true, from_kth: g.below(3) as u32, items: g.below(4) },
+        1 => FinalPlan::Callback { flush: false, from_kth: g.below(3) as u32, items: g.below(4) },
+        2 => FinalPlan::Hook { point: *g.pick(&RECV_POINTS), nth: g.below(8) as u32, items: g.below(4) },
+        _ => FinalPlan::None,
+    };
+    HOOK_PLAN.with(|hp| {
+        *hp.borrow_mut() = match plan {
+            FinalPlan::Hook { point, nth, items } => Some(HookPlan {
+                point,
+                countdown: nth,
+                items,
+                slot: slot.clone(),
+                log: log.clone(),
+            }),
+            _ => None,
+        }
+    });
     let side = std::rc::Rc::new(std::cell::RefCell::new(SenderSide {
-        sender: Some(sender),
+        slot: slot.clone(),
+        plan,
+        n_flush_cb: 0,
+        n_empty_cb: 0,
         g: g.fork(),
         next_item: 1,
         next_cb: 1,
@@ -502,7 +656,7 @@ fn run_vt(seed: u64, idx: u64, small: bool) -> CaseRun {
                 break;
             }
             Ok(Poll::Ready(())) => {
-                if side.borrow().sender.is_some() {
+                if slot.lock().unwrap().is_some() {
                     run.returned_early = true;
                 }
                 push(&log, Ev::Done);
@@ -516,11 +670,13 @@ fn run_vt(seed: u64, idx: u64, small: bool) -> CaseRun {
         }
         side.borrow_mut().act(false);
     }
+    HOOK_PLAN.with(|hp| *hp.borrow_mut() = None);
     // a future whose poll panicked must not be polled again; dropping it is fine
     let _ = catch(move || drop(fut));
     run.inline_panics = side.borrow().inline_panics;
     // keep the sender (if any) alive until here so "returned early" is meaningful
     drop(side);
+    drop(slot);
     run.evs = std::mem::take(&mut log.lock().unwrap().evs);
     run
 }
@@ -572,7 +728,7 @@ fn evs_json(evs: &[Ev]) -> Json {
             }
             Ev::Fired { id } => json!({"fired": id}),
             Ev::RegDone { id } => json!({"registered": id}),
-            Ev::Drop { pending, in_batch } => json!({"drop_sender": {"pending": pending, "in_batch": in_batch}}),
+            Ev::Drop { pending, in_batch, from } => json!({"drop_sender": {"pending": pending, "in_batch": in_batch, "from": from}}),
             Ev::Done => json!("exec-completed"),
         });
     }
@@ -628,6 +784,7 @@ fn check_vt(r: &mut Report, seed: u64, idx: u64, run: &CaseRun) {
     }
     let mut cbs: BTreeMap<u32, Cb> = BTreeMap::new();
     let mut dropped: Option<(usize, bool)> = None;
+    let mut dropped_from: &'static str = "tick";
     let mut calls_after_drop = 0u64;
     let mut pending_at_drop: Vec<u64> = Vec::new();
     let mut unattempted: HashSet<u64> = HashSet::new();
@@ -716,8 +873,10 @@ fn check_vt(r: &mut Report, seed: u64, idx: u64, run: &CaseRun) {
                     }
                 }
             }
-            Ev::Drop { pending, in_batch } => {
+            Ev::Drop { pending, in_batch, from } => {
                 dropped = Some((*pending, *in_batch));
+                dropped_from = *from;
+                r.observe(&format!("vt:sender-dropped-from:{}", from), 1);
                 pending_at_drop = unattempted.iter().copied().collect();
                 r.observe("vt:sender-drops", 1);
                 if *in_batch {
@@ -892,7 +1051,7 @@ fn check_vt(r: &mut Report, seed: u64, idx: u64, run: &CaseRun) {
         let idle_after = idle_waits_after_drop(&run.evs);
         if calls_after_drop + idle_after > bound {
             r.violation(
-                "C08:vt:drop:too-many-iterations",
+                &drop_sig("C08:vt:drop:too-many-iterations", dropped_from),
                 &format!(
                     "after the sender was dropped ({} outstanding batches) the receiver made {} attempts and {} idle waits (bound {})",
                     outstanding, calls_after_drop, idle_after, bound
@@ -902,7 +1061,7 @@ fn check_vt(r: &mut Report, seed: u64, idx: u64, run: &CaseRun) {
         }
         if !done && run.escaped.is_none() {
             r.violation(
-                "C08:vt:drop:exec-did-not-complete",
+                &drop_sig("C08:vt:drop:exec-did-not-complete", dropped_from),
                 "Receiver::exec had not completed when the case was stopped after the sender was dropped",
                 case(),
             );
@@ -911,7 +1070,7 @@ fn check_vt(r: &mut Report, seed: u64, idx: u64, run: &CaseRun) {
             let lost: Vec<u64> = pending_at_drop.iter().copied().filter(|x| !seen.contains(x)).collect();
             if !lost.is_empty() {
                 r.violation(
-                    "C08:vt:drop:queued-items-not-delivered",
+                    &drop_sig("C08:vt:drop:queued-items-not-delivered", dropped_from),
                     &format!("items {:?} were queued when the sender was dropped but never reached on_batch", lost),
                     case(),
                 );
@@ -938,6 +1097,14 @@ fn check_vt(r: &mut Report, seed: u64, idx: u64, run: &CaseRun) {
     }
     if r.samples.len() < 3 && any_failure && batches.len() >= 2 && idx % 97 == 3 {
         r.sample(case);
+    }
+}
+
+fn drop_sig(base: &str, from: &'static str) -> String {
+    if from == "tick" {
+        base.to_string()
+    } else {
+        format!("{}:dropped-in-{}", base, from)
     }
 }
 
@@ -1815,6 +1982,9 @@ mod threads {
                                     break;
                                 }
                                 termination_case(&mut child, seed, i);
+                                if i % 3 == 0 {
+                                    release_case(&mut child, seed, i);
+                                }
                             }
                             child
                         })
@@ -1825,6 +1995,118 @@ mod threads {
         };
         for c in children {
             r.merge(c);
+        }
+    }
+
+    /// A flush callback releases another thread which sends final items and drops the last sender
+    /// while a later, slow callback is still running on the receiver: the final items must still
+    /// be delivered before the worker terminates.
+    pub fn release_case(r: &mut Report, seed: u64, i: u64) {
+        let mut g = Rng::stream(seed, &[8, 5, i]);
+        let rk = RecvKind::pick(&mut g);
+        let items_with_callbacks = g.below(3); // 0 = the callbacks ride on an empty batch (idle / exit branch)
+        let finals = 1 + g.below(3);
+        let case = json!({
+            "section": "join", "variant": "released-thread-sends-and-drops", "seed": seed, "case": i, "receiver": rk.name(),
+            "items_queued_with_callbacks": items_with_callbacks, "final_items": finals,
+        });
+        r.eval();
+        let (sender, receiver) = bounded::<Chan>(1 << 16);
+        let delivered: Delivered = Arc::new(Mutex::new(Vec::new()));
+        let gate = Gate::new(false);
+        let handle = match start_receiver(rk, receiver, delivered.clone(), gate.clone(), 0) {
+            Ok(h) => h,
+            Err(e) => {
+                r.inconclusive(format!("could not spawn a receiver thread: {}", e));
+                return;
+            }
+        };
+        // park the processor so that the callbacks are deferred to the receiver
+        sender.send(1);
+        if !gate.wait_arrivals(1, WATCHDOG) {
+            r.inconclusive("join/release: the processor never reached the gate");
+            gate.open();
+            return;
+        }
+        let go: Done<()> = Done::new();
+        let helper_done: Done<()> = Done::new();
+        let fired = Arc::new([AtomicU64::new(0), AtomicU64::new(0)]);
+        {
+            let (go, fired) = (go.clone(), fired.clone());
+            sender.when_flushed(move || {
+                fired[0].fetch_add(1, Ordering::SeqCst);
+                go.set(());
+            });
+        }
+        {
+            let (helper_done, fired) = (helper_done.clone(), fired.clone());
+            sender.when_flushed(move || {
+                fired[1].fetch_add(1, Ordering::SeqCst);
+                // the slow callback: still running on the receiver while the released thread acts
+                let _ = helper_done.wait(Duration::from_secs(10));
+            });
+        }
+        for k in 0..items_with_callbacks {
+            sender.send(10 + k);
+        }
+        let helper = {
+            let (go, helper_done) = (go.clone(), helper_done.clone());
+            thread::spawn(move || {
+                let released = go.wait(WATCHDOG).is_some();
+                for k in 0..finals {
+                    sender.send(FINAL_ITEM_BASE + k);
+                }
+                drop(sender);
+                helper_done.set(());
+                released
+            })
+        };
+        gate.open();
+        let released = helper.join().unwrap_or(false);
+        match join_bounded(handle, WATCHDOG) {
+            None => {
+                r.inconclusive(format!("join/release: {} receiver had not terminated within the watchdog", rk.name()));
+                return;
+            }
+            Some(Err(p)) => {
+                r.violation(
+                    &format!("C08:join:worker-thread-panicked:{}", rk.name()),
+                    &format!("the {} worker thread ended with a panic: {}", rk.name(), panic_message(&p)),
+                    case,
+                );
+                return;
+            }
+            Some(Ok(())) => {}
+        }
+        if !released {
+            r.inconclusive("join/release: the first flush callback never released the helper thread");
+            return;
+        }
+        r.observe(&format!("join:release:{}:joined", rk.name()), 1);
+        r.nontrivial(&("join-release", rk, items_with_callbacks, finals));
+        let seen: HashSet<u64> = delivered.lock().unwrap().iter().flatten().copied().collect();
+        let missing: Vec<u64> = (0..finals).map(|k| FINAL_ITEM_BASE + k).filter(|x| !seen.contains(x)).collect();
+        if !missing.is_empty() {
+            r.violation(
+                &format!("C08:join:final-items-not-delivered:sent-by-thread-released-from-flush-callback:{}", rk.name()),
+                &format!(
+                    "{} items sent before the last sender was dropped (by a thread a flush callback released while a later callback was still running) never reached on_batch although the worker terminated",
+                    missing.len()
+                ),
+                case.clone(),
+            );
+        } else {
+            r.observe("join:release:final-items-delivered", finals);
+        }
+        for (k, f) in fired.iter().enumerate() {
+            let n = f.load(Ordering::SeqCst);
+            if n != 1 {
+                r.violation(
+                    &format!("C08:join:callback-fired-{}-times:{}", if n == 0 { "zero" } else { "several" }, rk.name()),
+                    &format!("flush callback #{} fired {} times by the time the worker thread had terminated", k, n),
+                    case.clone(),
+                );
+            }
         }
     }
 
@@ -1944,6 +2226,9 @@ fn main() {
     let seed = args.seed;
     let only = args.get("section").map(|s| s.to_string());
     let want = |s: &str| only.as_deref().map(|o| o == s).unwrap_or(true);
+
+    // the hook only acts on a thread whose vt case armed a plan (thread-local); elsewhere it is a no-op
+    emit_batcher::verif::set_hook(Some(vt_hook));
 
     if let Some(path) = &args.replay {
         let case = load_replay(path);
